@@ -35,13 +35,10 @@ var c16Schemas = map[string]string{
 	// a.foobar differs from s1's a.fooBar only by case; c.baz is new
 	"s2": c16Common + "a.foobar x:int = a.Foobar;\nc.baz v:(vector b.bar) = c.Baz;\n",
 	// no namespace a at all; c.baz has different fields than in s2
-	"s3": c16Common + "c.baz v:(vector b.bar) w:string t:m.1?true m:# = c.Baz;\n",
+	"s3": c16Common + "c.baz m:# v:(vector b.bar) w:string t:m.1?true = c.Baz;\n",
 }
 
-func init() {
-	// s3: the mask field must precede its use
-	c16Schemas["s3"] = c16Common + "c.baz m:# v:(vector b.bar) w:string t:m.1?true = c.Baz;\n"
-}
+var c16Stats map[string]any
 
 type c16Lang struct {
 	Name     string
@@ -115,7 +112,7 @@ const (
 )
 
 func ancestors(p string) []string {
-	var r []string
+	r := []string{}
 	for d := path.Dir(p); d != "." && d != "/" && d != ""; d = path.Dir(d) {
 		r = append(r, d)
 	}
@@ -324,6 +321,7 @@ func runC16(c *core.Ctx) error {
 		MaxSteps: 3,
 	}
 	langs := []c16Lang{goLang}
+	c16Stats = map[string]any{}
 	if c.Thorough() {
 		g4 := goLang
 		g4.MaxSteps = 4
@@ -541,10 +539,14 @@ func c16Lang1(c *core.Ctx, t *tools, lang c16Lang) error {
 		nextSet := map[int]bool{}
 		base := edgeSeq
 		edgeSeq += len(edges)
+		srcs := make([]string, len(edges))
+		for k, ei := range edges {
+			srcs[k] = snap[g.Edges[ei].From]
+		}
 		parallel(len(edges), 8, func(k int) {
 			ed := g.Edges[edges[k]]
 			exp := projs[ed.To]
-			src := snap[ed.From]
+			src := srcs[k]
 			replayOnce := func(tag string) (w, class, detail string, err error) {
 				w = filepath.Join(e.root, "work", fmt.Sprintf("%s%d", tag, base+k))
 				if err = copyTree(src, w); err != nil {
@@ -626,7 +628,7 @@ func c16Lang1(c *core.Ctx, t *tools, lang c16Lang) error {
 					stats["generate_refused"]++
 				}
 			}
-			if class == "" && sampled < 4 && depth >= 1 && exp.Last.Act == "Generate" && (sampled%2 == 0) == exp.Last.Ok {
+			if class == "" && sampled < 4 && depth >= 1 && exp.Last.Act == "Generate" && (sampled%2 == 0) == exp.Last.Ok && len(src0.Fs) > 0 {
 				sampled++
 				c.Sample(map[string]any{"generator": lang.Name, "history": history(ed.From), "step": exp.Last, "files_after": len(exp.Fs), "written": len(exp.Written), "outside": keys(exp.Outside)})
 			}
@@ -655,12 +657,8 @@ func c16Lang1(c *core.Ctx, t *tools, lang c16Lang) error {
 		sort.Ints(level)
 	}
 	c.Add("evaluations", edgeSeq)
-	prev, _ := c.GetAny("edge_replay").(map[string]any)
-	if prev == nil {
-		prev = map[string]any{}
-	}
-	prev[lang.Name] = stats
-	c.Set("edge_replay", prev)
+	c16Stats[lang.Name] = stats
+	c.Set("edge_replay", c16Stats)
 	c.Set("impl_accepted", c.Get("impl_accepted")+stats["generate_accepted"])
 	c.Set("impl_rejected", c.Get("impl_rejected")+stats["generate_refused"])
 	c.Logf("%s: %d edges replayed: %v", lang.Name, edgeSeq, stats)
